@@ -444,6 +444,33 @@ def _enclosing11(f):
         g = g.parent
 
 
+def r12(p, rep):
+    rep.rule("C12.R12", "marker positions derived from a node by arithmetic are only computed for nodes that have positions (synthesised nodes carry -1): the error constructors assert on negative positions", "T-DOM (guard `begin_pos >= 0` dominates position arithmetic)", floor=2)
+    c = p.cls("ExpressionIndicator", "namedtensor.util")
+    n = 0
+    for name, f in c.methods.items():
+        if not name.startswith("get_pos_for"):
+            continue
+        cfg = CFG(f.node)
+        for call in walk_no_nested(f.node):
+            if not (isinstance(call, ast.Call) and isinstance(call.func, ast.Attribute) and call.func.attr in ("extend", "append") and call.args):
+                continue
+            a = call.args[0]
+            recv = {norm(x.value) for x in ast.walk(a) if isinstance(x, ast.Attribute) and x.attr in ("begin_pos", "end_pos")}
+            if not recv:
+                continue
+            plain = isinstance(a, ast.Call) and norm(a.func) == "range" and len(a.args) == 2 and all(isinstance(x, ast.Attribute) and x.attr == w for x, w in zip(a.args, ("begin_pos", "end_pos")))
+            if plain:
+                continue  # range(-1, -1) is empty: harmless for synthesised nodes
+            n += 1
+            node = sorted(recv)[0]
+            facts = cfg.guards_of_ast(call)
+            ok = any(isinstance(t, ast.Compare) and len(t.ops) == 1 and norm(t.left) in (f"{node}.begin_pos", f"{node}.end_pos") and ((isinstance(t.ops[0], (ast.GtE, ast.Gt)) and pol) or (isinstance(t.ops[0], (ast.Lt, ast.LtE)) and not pol)) for t, pol in facts)
+            rep.add("C12.R12", f"{f.qualname}:positions({norm(a)[:40]})", f"{f.module.rel}:{call.lineno}", ok, f"`{norm(a)[:50]}` is computed only when {node}.begin_pos >= 0" if ok else f"`{norm(a)[:60]}` is computed for every node, including synthesised ones whose positions are -1: the positions become negative and the assert of the error constructor fires - the caller gets a bare AssertionError instead of the documented RankError / SemanticError")
+    if n == 0:
+        raise AnalysisError("unrecognised idiom: no position arithmetic found in ExpressionIndicator.get_pos_for_*")
+
+
 def run(p, rep, tier):
     r8(p, rep)
     rep.rule("C12.R1", "parser dispatch chains cover their tables / node families", "T-EXH", floor=5)
@@ -459,6 +486,7 @@ def run(p, rep, tier):
     r9(p, rep)
     r10(p, rep)
     r11(p, rep)
+    r12(p, rep)
     from . import c06 as _c06
 
     _c06.r6(p, rep, parts=("leaves",))  # the description reaches the parser through the cache-key freezing
